@@ -153,6 +153,10 @@ func bufAlphabet(withInvalidRunes bool) []bop {
 	for _, p := range rawFragments[1:] {
 		a = append(a, bop{k: "ws", s: p})
 	}
+	// WriteString of single bytes and short pieces (Write above takes the same payloads as []byte)
+	for _, p := range []string{"a", "\n", "\xe2", "\xb9", "\xba", "\xc3", "é", "‹"} {
+		a = append(a, bop{k: "ws", s: p})
+	}
 	for _, b := range bufBytes {
 		a = append(a, bop{k: "wb", n: b})
 	}
@@ -173,8 +177,10 @@ func bufAlphabet(withInvalidRunes bool) []bop {
 
 func randBop(rng *prng, alpha []bop) bop {
 	switch rng.intn(10) {
-	case 0, 1:
+	case 0:
 		return bop{k: "w", s: randPayload(rng, 1+rng.intn(4))}
+	case 1:
+		return bop{k: "ws", s: randPayload(rng, 1+rng.intn(3))}
 	case 2:
 		return bop{k: "m", n: int64(rng.intn(3))}
 	}
